@@ -271,7 +271,7 @@ class WsTap:
         def events(conn):
             for ev in tap._orig_events(conn):
                 if conn.client is False:
-                    tap.yielded.append(_wsproto_in(ev))
+                    tap.yielded.append(_wsproto_in(ev, conn))
                 yield ev
 
         def send(conn, event):
@@ -292,7 +292,8 @@ def _payload(ev) -> dict:
     return {"text": ev.data} if isinstance(ev, TextMessage) else {"bytes": b2s(bytes(ev.data))}
 
 
-def _wsproto_in(ev) -> list:
+def _wsproto_in(ev, conn=None) -> list:
+    from wsproto.connection import ConnectionState
     from wsproto.events import CloseConnection, Message, Ping, Pong
     if isinstance(ev, Message):
         return ["message", _payload(ev), bool(ev.message_finished)]
@@ -301,7 +302,10 @@ def _wsproto_in(ev) -> list:
     if isinstance(ev, Pong):
         return ["pong", b2s(bytes(ev.payload))]
     if isinstance(ev, CloseConnection):
-        return ["close", int(ev.code)]
+        # a real close frame moves the connection to REMOTE_CLOSING / CLOSED before the event is yielded; the event wsproto
+        # makes up for a frame it cannot parse (`ParseFailed`) leaves the state where it was
+        moved = conn is None or conn.state in (ConnectionState.REMOTE_CLOSING, ConnectionState.CLOSED)
+        return ["close" if moved else "failed", int(ev.code)]
     return ["?", repr(ev)]
 
 
@@ -385,6 +389,7 @@ async def drive_ws(init: dict, ops: List[dict], cfg: Optional[dict] = None) -> T
                         if n == "sec-websocket-extensions":
                             lib["ext_accepts"] = v
         lib["yielded"] = yielded_per_op
+        lib["spawned_apps"] = tg.spawned_apps
     finally:
         tap.remove()
     return out, lib
